@@ -131,6 +131,7 @@ def r09_3(ctx: Ctx):
                  f'of the evolvent: the two directions are not tied to one level count, so the inverse image need '
                  f'not be the preimage of the image ({err})', key=f'{rid}::{e.forward.short}::level-loop')
         return
+    e.report_level_table(rid)
     Bf = e.radix_field()
     fn = e.inverse
     lp = e.level_loop(fn)
